@@ -435,6 +435,9 @@ class XsiType(Family):
  <xs:element name="root5">
   <xs:complexType><xs:sequence><xs:element ref="t:x" maxOccurs="unbounded"/></xs:sequence></xs:complexType>
   <xs:unique name="u5"><xs:selector xpath=".//t:y|.//t:z"/><xs:field xpath="@v"/></xs:unique>
+  <xs:unique name="u5n"><xs:selector xpath="t:x"/><xs:field xpath="@n"/></xs:unique>
+  <xs:unique name="u5a"><xs:selector xpath="t:x"/><xs:field xpath="t:a"/></xs:unique>
+  <xs:unique name="u5an"><xs:selector xpath="t:x"/><xs:field xpath="t:a"/><xs:field xpath="@n"/></xs:unique>
  </xs:element>
  <xs:element name="root3">
   <xs:complexType><xs:sequence>
@@ -513,6 +516,13 @@ class XsiType(Family):
             Doc('xt-r5-E-dupz', D('root5', [{'type': 't:E', 'z': [6, 6]}]), 'fault:dup-unique'),
             Doc('xt-r5-E-dupyz', D('root5', [{'type': 't:E', 'y': [4], 'z': [4]}]), 'fault:dup-unique'),
             Doc('xt-r5-D-dupy', D('root5', [{'type': 't:D', 'y': [8, 8]}]), 'fault:dup-unique'),
+            # <x> is selected by three constraints with different fields
+            Doc('xt-r5-x-ok', D('root5', [{'type': 't:D', 'n': 'k', 'a': 1, 'y': [1]}, {'type': 't:D', 'n': 'm', 'y': [2]},
+                                         {'n': 'p'}])),
+            Doc('xt-r5-x-dupn', D('root5', [{'type': 't:D', 'n': 'k', 'a': 1}, {'type': 't:E', 'n': 'k'}]), 'fault:dup-unique'),
+            Doc('xt-r5-x-dupa', D('root5', [{'type': 't:D', 'n': 'k', 'a': 1}, {'n': 'm', 'a': 1}]), 'fault:dup-unique'),
+            Doc('xt-r5-x-dupall', D('root5', [{'type': 't:D', 'n': 'k', 'a': 1}, {'type': 't:D', 'n': 'k', 'a': 1}]),
+                'fault:dup-unique'),
         ]
         # xsi:type on the ROOT element: the children added by the extension belong to the root's own content
         xsi = 'xmlns:t="urn:xt" xmlns:xsi="http://www.w3.org/2001/XMLSchema-instance"'
@@ -1546,13 +1556,16 @@ class Simple(Family):
 
     def docs(self, rng):
         alts = '<alt a="1" b="1" d="2020-01-01"/><alt a="2" b="1" d="2020-12-01"/><alt a="5" b="5" one="1"/>'
-        return [
+        docs = [
             Doc('si-valid', self._doc()),
             Doc('si-valid-alt', self._doc(alts), kind='valid11'),
             Doc('si-bad-enum', self._doc(en='7'), 'fault:lexical'),
             Doc('si-bad-list', self._doc(lst='1 x 3'), 'fault:lexical'),
             Doc('si-bad-union', self._doc(un2='neither'), 'fault:lexical'),
         ]
+        for d in docs:
+            d.prefix_dep = True      # <qn> holds a QName
+        return docs
 
 
 # ---------------------------------------------------------------------------
